@@ -100,6 +100,8 @@ pub trait MomT: Clone + Send + Sync + 'static {
     fn extend_ref(&mut self, v: &[f64]);
     fn par_collect_val(v: &[f64]) -> Self;
     fn par_collect_ref(v: &[f64]) -> Self;
+    /// parallel collect with explicit splitting limits (forces many small leaves)
+    fn par_collect_limits(v: &[f64], min_len: usize, max_len: usize, by_ref: bool) -> Self;
 }
 
 macro_rules! common_impl {
@@ -141,6 +143,14 @@ macro_rules! common_impl {
         fn par_collect_ref(v: &[f64]) -> Self {
             use rayon::prelude::*;
             v.par_iter().collect()
+        }
+        fn par_collect_limits(v: &[f64], min_len: usize, max_len: usize, by_ref: bool) -> Self {
+            use rayon::prelude::*;
+            if by_ref {
+                v.par_iter().with_min_len(min_len).with_max_len(max_len).collect()
+            } else {
+                v.to_vec().into_par_iter().with_min_len(min_len).with_max_len(max_len).collect()
+            }
         }
     };
 }
